@@ -288,6 +288,33 @@ func c11(r *core.Run) {
 				"a chunk counts as an in-call duplicate exactly when an earlier chunk of the call has the same address", "the in-call duplicate test is not (only) address equality: two chunks with one address and different bytes are both written in a batched put, while one-at-a-time puts keep the first and report the second as existing")
 		})
 		r.Floor("C11.P2", "positive returns of containsChunk", nT, 1)
+		// the converse: an earlier chunk with the same address always makes it a duplicate
+		okConv := len(byAddr) > 0
+		back := core.BackEdges(cc)
+		seen := map[*ssa.BasicBlock]bool{}
+		work := edgeTargets(byAddr)
+		for len(work) > 0 && okConv {
+			b := work[len(work)-1]
+			work = work[:len(work)-1]
+			if seen[b] {
+				continue
+			}
+			seen[b] = true
+			if ret, isRet := b.Instrs[len(b.Instrs)-1].(*ssa.Return); isRet {
+				if v, isC := core.ConstBool(core.Forward(ret.Results[0])); !isC || !v {
+					okConv = false
+				}
+				continue
+			}
+			for _, s := range b.Succs {
+				if back[core.Edge{From: b, To: s}] {
+					okConv = false // moved on to the next element without reporting the duplicate
+				}
+				work = append(work, s)
+			}
+		}
+		r.Check("C11.P2", core.Key("C11.P2", cc, "same address always a duplicate"), cc.Pos(), okConv,
+			"once an earlier chunk with the same address is found the test reports a duplicate, with no further condition", "after the address matched, containsChunk can still move on or answer false: the duplicate test looks at more than the address")
 	}
 
 	// G2 setRemove
@@ -305,6 +332,43 @@ func c11(r *core.Run) {
 					"a chunk whose pin counter stays positive keeps its data", "from the edge PinCounter > 0 the data delete is still reachable")
 			}
 		}
+	}
+	// G3: the lock-free "already stored" shortcut of put (a success return taken before
+	// batchMu is acquired) is reachable only for the put modes that have no side effect on
+	// an existing chunk: the pinning modes must reach the batched section so the pin
+	// reference is taken (otherwise one put-at-a-time and one batched put differ).
+	if fn := lsFunc(r, "(*DB).put"); fn != nil {
+		var lock ssa.Instruction
+		for _, c := range core.Calls(fn, "(*sync.Mutex).Lock") {
+			if cc := core.Common(c); len(cc.Args) > 0 && core.IsFieldOf(cc.Args[0], dbT, "batchMu") {
+				lock = c
+			}
+		}
+		mode := fn.Params[1]
+		notMode := func(name string) core.EdgeSet {
+			k, ok := constInt(w, "pkg/storage", name)
+			if !ok {
+				r.Fatal("unresolved constant pkg/storage.%s", name)
+				return nil
+			}
+			pos, _ := core.AtomEdges(fn, cmpAtom(func(v ssa.Value) bool { return v == ssa.Value(mode) }, func(y ssa.Value) bool { c, ok := core.ConstInt(y); return ok && c == k }, "!="))
+			return pos
+		}
+		nrp, nup := notMode("ModePutRequestPin"), notMode("ModePutUploadPin")
+		n := 0
+		core.EachInstr(fn, func(_ *ssa.BasicBlock, _ int, in ssa.Instruction) {
+			ret, ok := in.(*ssa.Return)
+			if !ok || len(ret.Results) != 2 || !core.IsNilConst(core.Forward(ret.Results[1])) {
+				return
+			}
+			if lock != nil && core.Precedes(lock, ret) {
+				return
+			}
+			n++
+			r.Check("C11.G3", core.Key("C11.G3", fn, "lock-free success return only for non-pinning modes"), ret.Pos(), lock != nil && len(nrp) > 0 && len(nup) > 0 && core.OnlyBehind(fn, ret, nrp) && core.OnlyBehind(fn, ret, nup),
+				"put reports success without entering the batched section only for ModePutRequest/ModePutUpload", "a success return that bypasses the batched section is reachable for a pinning put mode: re-putting an existing chunk with ModePut*Pin skips its pin reference, and a later remove deletes a chunk the batched put would have kept")
+		})
+		r.Floor("C11.G3", "lock-free success returns of put", n, 1)
 	}
 }
 
